@@ -66,6 +66,8 @@ def run(prog: Program, rep: Report, tier: str) -> None:
     rep.rule("R10.3", "schedule identity is the slot id: __hash__ and __eq__ depend on schedule_id only", 2)
     rep.rule("R10.5", "nothing on the listing path is memoised (the local-time decoder depends on the host zone; parsed schedules must reflect the reply just read)", 3, structural=True)
     rep.rule("R10.4", "writer/reader agreement: the record create_schedule emits has days/start/end at the offsets and widths the reader uses, the same byte order, mktime<->localtime (both local), '%H:%M' on both sides, the non-recurring constant the reader tests against, and an empty day collection is written as that constant (not refused)", 7)
+    from ..api_model import duration_premise
+    duration_premise(prog, rep)
     rep.trusted += [
         "textwrap.wrap on whitespace-free text yields consecutive chunks of the given width ('' -> [])",
         "time.mktime / time.localtime are inverse on existing local times (libc; the zone/DST behaviour itself is not decided, see C11)",
